@@ -42,8 +42,11 @@ def run_property(pid: str, tier: str, seed: int) -> int:
         # the machinery: it is reported as a violation.  Anything raised by the harness itself stays exit 2.
         tb = traceback.extract_tb(ex.__traceback__)
         lib = str(Path(REPO).resolve() / "aioesphomeapi")
-        if tb and str(Path(tb[-1].filename).resolve()).startswith(lib) and not isinstance(ex, (TLCFailure, KeyboardInterrupt)):
-            where = f"{Path(tb[-1].filename).name}:{tb[-1].name}"
+        # (also when the library is on the stack below the harness code that raised: the harness's device / transport
+        # stand-ins are called BY the library and choke on what it handed them - never on the unchanged tree)
+        in_lib = [f for f in tb if str(Path(f.filename).resolve()).startswith(lib)]
+        if in_lib and not isinstance(ex, (TLCFailure, KeyboardInterrupt)):
+            where = f"{Path(in_lib[-1].filename).name}:{in_lib[-1].name}"
             ctx.violation(f"Harness/escaped/{type(ex).__name__}/{where}",
                           {"kind": "escaped", "exception": repr(ex)[:500], "traceback": traceback.format_exc()[-4000:]})
             return ctx.finish()
